@@ -20,7 +20,9 @@ THEOREMS = {
     "C08": ["keys_eq_arms", "added_immediately", "removed_never_returns", "arms_unchanged_by_training", "unwrap_shape",
             "predictExp_keys", "predict_mem", "argmaxFirst_mem", "draw_length", "chunk_rows"],
     "C09": ["argmax_first", "foldMax_spec", "argmaxFirst_mem", "predict_eq_argmax", "leWith_val"],
-    "C10": ["predictExp_readonly", "predict_readonly", "impPredict_readonly", "query_readonly"],
+    "C10": ["predictExp_readonly", "predict_readonly", "impPredict_readonly", "query_readonly",
+            "fit_normT", "partialFit_normT", "addArm_normT", "removeArm_normT", "warmStart_normT", "predictExp_normT",
+            "step_norm", "query_norm", "step_np", "norm_bisim", "queried_indistinguishable"],
     "C11": ["hash_scale_invariant", "vecMul_scale", "hash_zero_projection", "planes_fixed_at_fit", "lsh_partial_hist",
             "lsh_nhood_union", "lshInsert_getD", "mem_hashIdx", "hashIdx_append", "lshInv_fit", "lshInv_partialFit",
             "lsh_nhood_exact", "self_collision"],
@@ -53,7 +55,7 @@ IMPORTS = {
     "C07": ["MabModel.Props.C07"],
     "C08": ["MabModel.Props.C08"],
     "C09": ["MabModel.Props.C09"],
-    "C10": ["MabModel.Props.C10"],
+    "C10": ["MabModel.Props.C10", "MabModel.Props.C10b"],
     "C11": ["MabModel.Props.C11"],
     "C12": ["MabModel.Props.C12"],
     "C13": ["MabModel.Props.C13", "MabModel.Props.C13b"],
